@@ -170,6 +170,86 @@ pub fn run(ctx: &mut Ctx) -> Report {
 			s.rep.violate("C15:repeat-crl", "repeating CRL generation changes the to-be-signed bytes", format!("first:\n{}\nsecond:\n{}", r1.replay(), r2.replay()));
 		}
 	}
+	// CRL generation does not alter the parameters it is given (compared through Debug: the
+	// parameter types have no PartialEq), sub-second parts included
+	for k in 0..n {
+		let mut crl = gen_crl(&mut s.rng);
+		crl.this.ns = 123_456_789;
+		crl.next.ns = 987_654_321;
+		if cfg!(feature = "nocrypto") {
+			crl.kid = Kid::Pre(vec![1; 20]);
+		}
+		let i = k % s.issuers.len();
+		let (Some(rc), Some(before)) = (crl.real(), crl.real()) else { continue };
+		let is = &s.issuers[i];
+		if let Ok(Ok(out)) = std::panic::catch_unwind(std::panic::AssertUnwindSafe(|| rc.signed_by(&is.cert, &is.key))) {
+			s.rep.count("crl_params_compared");
+			let (a, b) = (format!("{:?}", out.params()), format!("{:?}", before));
+			if a != b {
+				s.rep.violate("C15:crl-params-preserved", "the returned CRL reports parameters different from the input", format!("input:    {}\nreturned: {}", b, a));
+			}
+		}
+	}
+	// names built by a history of push / remove through the real API: two instances built by
+	// the same calls give the same certificate, equal to the one the insertion-ordered reading
+	// of the history implies, on every repeat
+	{
+		let key = s.ctx.key("ed25519");
+		let types = [DnT::C, DnT::St, DnT::L, DnT::O, DnT::Ou, DnT::Cn, DnT::Custom(vec![1, 2, 840, 113549, 1, 9, 1])];
+		for k in 0..n {
+			let len = 6 + s.rng.below(9) as usize;
+			let mut hist: Vec<(bool, usize, String)> = Vec::new(); // (push?, type index, value)
+			for j in 0..len {
+				let t = s.rng.below(types.len() as u64) as usize;
+				let push = j < 4 || !s.rng.chance(1, 3);
+				hist.push((push, t, format!("v{}", j)));
+			}
+			// reference reading: types present, first-insertion order, latest value
+			let mut expect: Vec<(usize, String)> = Vec::new();
+			for (push, t, v) in &hist {
+				if *push {
+					match expect.iter_mut().find(|(x, _)| x == t) {
+						Some(e) => e.1 = v.clone(),
+						None => expect.push((*t, v.clone())),
+					}
+				} else {
+					expect.retain(|(x, _)| x != t);
+				}
+			}
+			let build = || {
+				let mut dn = DistinguishedName::new();
+				for (push, t, v) in &hist {
+					if *push {
+						dn.push(types[*t].real(), DnValue::Utf8String(v.clone()));
+					} else {
+						dn.remove(types[*t].real());
+					}
+				}
+				dn
+			};
+			let mut base = PCert::default_like();
+			base.serial = Some(vec![7]);
+			if cfg!(feature = "nocrypto") {
+				base.kid = Kid::Pre(vec![1; 20]);
+			}
+			let mut want = base.clone();
+			want.dn = Dn(expect.iter().map(|(t, v)| (types[*t].clone(), DnV::Utf8(v.clone()))).collect());
+			let Some(want_der) = want.real().and_then(|r| r.self_signed(&key).ok()).map(|c| c.der().to_vec()) else { continue };
+			let mut ders: Vec<Vec<u8>> = Vec::new();
+			for _ in 0..4 {
+				let mut rp = base.real().unwrap();
+				rp.distinguished_name = build();
+				if let Ok(c) = rp.self_signed(&key) {
+					ders.push(c.der().to_vec());
+				}
+			}
+			s.rep.case(&format!("name-history {} {:?}", k, hist), hist.iter().any(|h| !h.0));
+			s.rep.count("name_histories");
+			if ders.iter().any(|d| *d != want_der) {
+				s.rep.violate("C15:name-history", "certificates whose subject was built by the same push/remove history differ between instances or from the insertion-ordered reading of the history", format!("history (push?, type, value): {:?}\nexpected subject order: {:?}\nexpected DER: {}\ngot: {:?}", hist, expect, hex(&want_der), ders.iter().map(|d| hex(d)).collect::<Vec<_>>()));
+			}
+		}
+	}
 	// (c) threads sharing one key pair and one issuer certificate
 	{
 		let key = s.ctx.key("ed25519");
